@@ -72,6 +72,8 @@ def main(argv):
     tier = args.tier if args.tier in ('quick', 'thorough') else 'quick'
     seed = int(os.environ.get('VERIF_SEED', '0') or 0)
     t0 = time.time()
+    # sampled second-solver check of the queries z3 decides (every n-th is re-decided by cvc5; disagreement -> exit 2)
+    os.environ.setdefault('MIRSYM_XCHECK', '400' if tier == 'quick' else '40')
     outdir = os.path.join(VERIF, 'out', prop)
     os.makedirs(outdir, exist_ok=True)
     os.makedirs(os.path.join(VERIF, 'evidence'), exist_ok=True)
